@@ -203,8 +203,12 @@ class Check:
         self.notes = []
         self.broken = []          # names of theorems / bridges / correspondences that no longer check
         self.dist = {}
-        kf = json.load(open(os.path.join(VERIF, 'known_findings.json')))
-        self.known = [f for f in kf.get('findings', []) if f['property'] == pid]
+        # findings/<pid>*.json are the per-property sources from which tools/mkmanifest.py assembles
+        # the committed known_findings.json; never written at run time
+        import glob
+        self.known = []
+        for fp in sorted(glob.glob(os.path.join(VERIF, 'findings', pid + '*.json'))):
+            self.known += [f for f in json.load(open(fp)).get('findings', []) if f['property'] == pid]
 
     # ---- obligations -----------------------------------------------------
     def coq(self, gen=(), targets=(), props=None):
